@@ -23,7 +23,39 @@ def sh(cmd, cwd=None, timeout=3600, env=None):
     return r.returncode, r.stdout + r.stderr
 
 
+def recheck(name, checks, note):
+    out = os.path.join(ROOT, "seeded", name)
+    meta = json.load(open(os.path.join(out, "meta.json")))
+    env = dict(os.environ)
+    if sh("git -C /repo status --porcelain")[1].strip():
+        print("/repo is dirty; refusing")
+        return 2
+    rc, o = sh(f"git -C /repo apply {os.path.join(out, 'patch.diff')}")
+    if rc != 0:
+        print("patch does not apply:", o)
+        return 2
+    results = {}
+    try:
+        for c in checks:
+            t0 = time.time()
+            rc, o = sh(f"python3 check.py {c} quick", ROOT, env=env)
+            lines = [l for l in o.splitlines() if l.startswith(("VIOLATION", "OK ", "KNOWN", "INFRA"))]
+            results[c] = {"exit": rc, "wall_s": round(time.time() - t0, 1), "lines": lines[:6]}
+            print(c, "exit", rc, lines[:2])
+    finally:
+        sh("git -C /repo checkout -- .")
+    meta.setdefault("history", []).append({"first_result": meta.get("checks_against_change"), "first_caught_by": meta.get("caught_by"), "note": note})
+    meta["checks_against_change"] = results
+    meta["caught_by"] = [c for c, r in results.items() if r["exit"] == 1]
+    json.dump(meta, open(os.path.join(out, "meta.json"), "w"), indent=1)
+    sh("git checkout -- evidence", ROOT)
+    print("caught by:", meta["caught_by"])
+    return 0
+
+
 def main():
+    if sys.argv[1] == "--recheck":
+        return recheck(sys.argv[2], sys.argv[4:], sys.argv[3])
     wt, name, prop = sys.argv[1], sys.argv[2], sys.argv[3]
     checks = sys.argv[4:] or [prop]
     skip_verify = os.environ.get("SEED_SKIP_VERIFY") == "1"
@@ -40,7 +72,8 @@ def main():
         if os.path.exists(demo_rs):
             os.makedirs(os.path.join(wt, "tests"), exist_ok=True)
             shutil.copy(demo_rs, os.path.join(wt, "tests", "seeded_demo.rs"))
-            rc, o = sh("cargo test --offline --test seeded_demo 2>&1 | tail -15", wt, env=env)
+            feat = "--features verif " if "hpbf::verif" in open(demo_rs).read() else ""
+            rc, o = sh(f"cargo test --offline {feat}--test seeded_demo 2>&1 | tail -15", wt, env=env)
             ok = "test result: ok" in o
             os.remove(os.path.join(wt, "tests", "seeded_demo.rs"))
             return ok, o[-1500:]
